@@ -142,7 +142,7 @@ Section VecProofs.
   (* ---- pop *)
   Theorem vec_pop_wasm : forall v l, wrep v l ->
     match spec_vec_pop A l with
-    | SBoundsPanic => wasm_vec_pop A v = Trap TUnreachable
+    | SBoundsPanic => wasm_vec_pop A v = Throw msg_pop
     | SOk (x, l') => exists v', wasm_vec_pop A v = Ok (x, v') /\ wrep v' l'
     end.
   Proof.
@@ -173,7 +173,7 @@ Section VecProofs.
   Theorem vec_get_wasm : forall v l i, wrep v l -> in32 i ->
     match spec_vec_get A l i with
     | SOk x => wasm_vec_get A v i = Ok x
-    | SBoundsPanic => wasm_vec_get A v i = Trap TUnreachable
+    | SBoundsPanic => wasm_vec_get A v i = Throw msg_oob
     end.
   Proof.
     intros v l i [Habs Hcap] Hi. unfold in32, MIN, MAX in Hi. destruct (wabs_inv v l Habs) as [rest [Hd Hl]].
@@ -192,7 +192,7 @@ Section VecProofs.
   Theorem vec_set_wasm : forall v l i x, wrep v l -> in32 i ->
     match spec_vec_set A l i x with
     | SOk l' => exists v', wasm_vec_set A v i x = Ok (0, v') /\ wrep v' l'
-    | SBoundsPanic => wasm_vec_set A v i x = Trap TUnreachable
+    | SBoundsPanic => wasm_vec_set A v i x = Throw msg_oob
     end.
   Proof.
     intros v l i x [Habs Hcap] Hi. unfold in32, MIN, MAX in Hi. destruct (wabs_inv v l Habs) as [rest [Hd Hl]].
@@ -252,13 +252,13 @@ Section VecProofs.
   Qed.
 
   (* ---- the two back ends against each other: related states, same call -> same result, related states again;
-          both signal the documented bounds failures (WebAssembly: unreachable, TypeScript: Error with a fixed message) *)
+          both signal the documented bounds failures (both: Error with the same fixed message) *)
   Theorem vec_push_backends_agree : forall v l x, wrep v l ->
     exists v', wasm_vec_push A v x = Ok (0, v') /\ wabs v' = Some (snd (ts_vec_push A l x)).
   Proof. intros v l x H. destruct (vec_push_wasm v l x H) as [v' [E [Ha _]]]. exists v'. split; [exact E | exact Ha]. Qed.
   Theorem vec_pop_backends_agree : forall v l, wrep v l ->
     (exists x v' l', wasm_vec_pop A v = Ok (x, v') /\ ts_vec_pop A l = Ok (x, l') /\ wrep v' l') \/
-    (wasm_vec_pop A v = Trap TUnreachable /\ ts_vec_pop A l = Throw msg_pop).
+    (wasm_vec_pop A v = Throw msg_pop /\ ts_vec_pop A l = Throw msg_pop).
   Proof.
     intros v l H. pose proof (vec_pop_wasm v l H) as W. pose proof (vec_pop_ts l) as T.
     destruct (spec_vec_pop A l) as [[x l']|].
@@ -267,14 +267,14 @@ Section VecProofs.
   Qed.
   Theorem vec_get_backends_agree : forall v l i, wrep v l -> in32 i ->
     (exists x, wasm_vec_get A v i = Ok x /\ ts_vec_get A l i = Ok x) \/
-    (wasm_vec_get A v i = Trap TUnreachable /\ ts_vec_get A l i = Throw msg_oob).
+    (wasm_vec_get A v i = Throw msg_oob /\ ts_vec_get A l i = Throw msg_oob).
   Proof.
     intros v l i H Hi. pose proof (vec_get_wasm v l i H Hi) as W. pose proof (vec_get_ts l i) as T.
     destruct (spec_vec_get A l i) as [x|]; [left; exists x | right]; split; assumption.
   Qed.
   Theorem vec_set_backends_agree : forall v l i x, wrep v l -> in32 i ->
     (exists v' l', wasm_vec_set A v i x = Ok (0, v') /\ ts_vec_set A l i x = Ok (0, l') /\ wrep v' l') \/
-    (wasm_vec_set A v i x = Trap TUnreachable /\ ts_vec_set A l i x = Throw msg_oob).
+    (wasm_vec_set A v i x = Throw msg_oob /\ ts_vec_set A l i x = Throw msg_oob).
   Proof.
     intros v l i x H Hi. pose proof (vec_set_wasm v l i x H Hi) as W. pose proof (vec_set_ts l i x) as T.
     destruct (spec_vec_set A l i x) as [l'|].
